@@ -101,7 +101,84 @@ def template(form, encoding=None):
     return t
 
 
+# html_quote together with another option: the option either formats the
+# value before it is quoted (fmt=) or transforms the quoted text afterwards
+# (modifiers) - both are checked relationally against the option alone
+REL_FMT = ['multi-line', 'upper', 'lower', 'strip', '[%s]', 'structured-text',
+           'url-quote', 'collection-length']
+REL_MOD = ['url_quote', 'url_quote_plus', 'newline_to_br', 'lower', 'upper',
+           'capitalize', 'spacify', 'sql_quote', 'thousands_commas']
+
+
+def rel_template(src):
+    t = _tcache.get(src)
+    if t is None:
+        from DocumentTemplate import HTML
+        t = _tcache[src] = HTML(src)
+    return t
+
+
+def rel_render(src, **kw):
+    try:
+        return rel_template(src)(**kw)
+    except Exception as e:
+        return 'raised %s' % type(e).__name__
+
+
+def run_rel(res, case):
+    n = nt = 0
+    for value in values(case):
+        if not value:
+            continue
+        esc = html.escape(value, True)
+        nv = nontrivial_value(value)
+        for f in REL_FMT:
+            alone = rel_render('<dtml-var x fmt="%s">' % f, x=value)
+            if alone.startswith('raised '):
+                continue
+            for src in ('<dtml-var x fmt="%s" html_quote>' % f,
+                        '<dtml-var x html_quote fmt="%s">' % f,
+                        '<dtml-var "x" fmt="%s" html_quote null="N">' % f):
+                got = rel_render(src, x=value)
+                n += 1
+                nt += nv
+                if got != html.escape(alone, True):
+                    res.violate('escape', 'escape:with-fmt=%s' % f,
+                                {'source': src, 'value': value, 'got': got,
+                                 'expected': html.escape(alone, True)},
+                                {'kind': 'rel-one', 'value': value})
+                    break
+        for m in REL_MOD:
+            want = rel_render('<dtml-var y %s>' % m, y=esc)
+            for src in ('<dtml-var x html_quote %s>' % m,
+                        '<dtml-var x %s html_quote>' % m,
+                        '&dtml.html_quote.%s-x;' % m):
+                got = rel_render(src, x=value)
+                n += 1
+                nt += nv
+                if got != want:
+                    res.violate('escape', 'escape:with-modifier=%s' % m,
+                                {'source': src, 'value': value, 'got': got,
+                                 'expected': want},
+                                {'kind': 'rel-one', 'value': value})
+                    break
+    res.evals = n
+    res.nt_count = nt
+    res.outcome = 'rel'
+    res.sample = {'law': 'x fmt=F html_quote == escape(x fmt=F); x '
+                         'html_quote M == (escape(x)) M'}
+    return res
+
+
 def cases(tier):
+    for n in range(0, 4 if tier == 'quick' else 5):
+        if n < 2:
+            yield {'kind': 'rel', 'n': n, 'pre': []}
+        else:
+            for a, b in itertools.product(range(len(ALPHA)), repeat=2):
+                yield {'kind': 'rel', 'n': n, 'pre': [a, b]}
+    for ci in range(len(CARRIERS)):
+        yield {'kind': 'rel-carrier', 'c': ci}
     top = 0x10000 if tier == 'quick' else 0x110000
     for lo in range(0, top, CHUNK):
         yield {'kind': 'cp', 'lo': lo, 'hi': min(top, lo + CHUNK)}
@@ -133,10 +210,13 @@ def cases(tier):
 
 def values(case):
     k = case['kind']
+    if 'only' in case:
+        yield case['only']
+        return
     if k in ('cp', 'bytes-cp'):
         for cp in range(case['lo'], case['hi']):
             yield chr(cp)
-    elif k == 'carrier':
+    elif k in ('carrier', 'rel-carrier'):
         c = CARRIERS[case['c']]
         yield c
         for ch in '&<>"\'':
@@ -199,6 +279,11 @@ def render(form, value, enc=None):
 
 def run(case):
     res = Res()
+    if case['kind'] in ('rel', 'rel-carrier'):
+        return run_rel(res, case)
+    if case['kind'] == 'rel-one':
+        return run_rel(res, {'kind': 'cp', 'lo': 0, 'hi': 0,
+                             'only': case['value']})
     if case['kind'] == 'one':
         # replay form
         value, enc, form = case['value'], case.get('enc'), case['form']
